@@ -10,7 +10,7 @@ import (
 
 func init() {
 	propInfos["C16"] = &propInfo{
-		Explanation: "Decides the matcher layer's structure: (1) the fallback parsers' decision tables (both fail → classic error; only UTF-8 fails → classic result; both succeed and differ → classic result; otherwise UTF-8 result); (2) the UTF-8 parser's entry point recovers from panics and the single-matcher entry goes through it; (3) regular expressions are anchored at construction (^(?:v)$), compile errors returned, the compiled field written nowhere else; (4) Matcher.Matches' table over the four operators, evaluating the compiled regexp itself (no shortcut); (5) Matchers.Matches is a conjunction over all matchers reading lset[name] by plain index (missing ⇒ empty); MatcherSet.Matches a disjunction; (6) routes, silences, inhibition and API filters all evaluate through (*Matcher).Matches; (7) the operator tables of the classic parser and MatchType.String agree on all four operators; (8) the classic list splitter's escape state: a backslash toggles 'escaped', a quote toggles 'inside quotes' only when not escaped.",
+		Explanation: "Decides the matcher layer's structure: (1) the fallback parsers' decision tables (both fail → classic error; only UTF-8 fails → classic result; both succeed and differ → classic result; otherwise UTF-8 result); (2) the UTF-8 parser's entry point recovers from panics and the single-matcher entry goes through it; (3) regular expressions are anchored at construction (^(?:v)$), compile errors returned, the compiled field written nowhere else; (4) Matcher.Matches' table over the four operators, evaluating the compiled regexp itself (no shortcut); (5) Matchers.Matches is a conjunction over all matchers reading lset[name] by plain index (missing ⇒ empty); MatcherSet.Matches a disjunction; (6) routes, silences, inhibition and API filters all evaluate through (*Matcher).Matches; (7) the operator tables of the classic parser and MatchType.String agree on all four operators; (8) the classic list splitter's escape state: a backslash toggles 'escaped', a quote toggles 'inside quotes' only when not escaped; the printer and the UTF-8 lexer use the same isReserved predicate.",
 		NotDecided:  "print/parse round-trip and parser agreement over all strings (input-quantified, lexer arithmetic); termination of the lexers.",
 	}
 
